@@ -98,7 +98,15 @@ func defineStubs(e *env.Env, tr func(interface{})) {
 
 // runVM executes stmt in a fresh environment with the stubs, cancelling at poll k (k<0: never).
 func runVM(stmt ast.Stmt, k int, limit time.Duration) vmResult {
+	return runVMWith(stmt, k, limit, nil)
+}
+
+// runVMWith lets the caller add bindings to the fresh environment.
+func runVMWith(stmt ast.Stmt, k int, limit time.Duration, setup func(*env.Env)) vmResult {
 	e := env.NewEnv()
+	if setup != nil {
+		setup(e)
+	}
 	var mu sync.Mutex
 	var trace []string
 	defineStubs(e, func(x interface{}) {
